@@ -16,8 +16,8 @@ refs are wanted, in which order the missing repositories are fetched, is the tok
 returns); the three `.expect`s on the policy database are not modelled (SQLite errors: modelled-not-verified).
 `debug_assert!`s are not sites (the node is built in release mode).
 
-`Code` selects the version of the code: `current` is `/repo` main; the two fields are the two repairs of
-commit e41c53f, so that the counterexamples that motivated them can be stated (`Props/C13.lean`).
+`Code` selects the version of the code: `current` is `/repo` main; the fields are the repairs of commits
+e41c53f and 192a092, so that the counterexamples that motivated them can be stated (`Props/C13.lean`).
 
 Import-free.
 -/
@@ -76,15 +76,15 @@ structure Code where
   zeroTimestampGuard : Bool
   /-- `gossip::Store::filtered` still asserts `from <= to` -/
   filteredAsserts : Bool
-  /-- `Service::initial` computes the backlog start with a saturating subtraction
-  (proposed repair, `fixes-pending/C13-subscribe-backlog-underflow.patch`) -/
+  /-- `Service::initial` computes the backlog start with the saturating subtraction of `Timestamp`
+  (commit 192a092) -/
   subscribeSaturates : Bool
   deriving Repr, DecidableEq
 
-/-- `/repo` main. -/
-def Code.current : Code := { zeroTimestampGuard := true, filteredAsserts := false, subscribeSaturates := false }
-/-- `/repo` main with the proposed repair of `Service::initial`. -/
-def Code.fixed : Code := { zeroTimestampGuard := true, filteredAsserts := false, subscribeSaturates := true }
+/-- `/repo` main (incl. e41c53f and 192a092). -/
+def Code.current : Code := { zeroTimestampGuard := true, filteredAsserts := false, subscribeSaturates := true }
+/-- The tree before commit 192a092 (`Service::initial` subtracted on `LocalTime`). -/
+def Code.before192a092 : Code := { zeroTimestampGuard := true, filteredAsserts := false, subscribeSaturates := false }
 /-- The tree before commit e41c53f. -/
 def Code.beforeE41c53f : Code := { zeroTimestampGuard := false, filteredAsserts := true, subscribeSaturates := false }
 
@@ -382,8 +382,8 @@ def failFetches (σ : State) (remote : Nid) : Rid → Option (Nid × List RefAt)
   | none => none
 
 /-- `Service::initial`: the `since` of the Subscribe sent on every new connection. `none` = the
-subtraction `last - SUBSCRIBE_BACKLOG_DELTA` underflowed (panic, see `Site.subscribeBacklog`). With the
-proposed repair the subtraction saturates. -/
+subtraction `last - SUBSCRIBE_BACKLOG_DELTA` underflowed (panic, see `Site.subscribeBacklog`; before 192a092).
+Since 192a092 the subtraction saturates. -/
 def initialSince (c : Code) (σ : State) : Option Nat :=
   match σ.lastOnline with
   | none => some (σ.now - 86400000)        -- `now - INITIAL_SUBSCRIBE_BACKLOG_DELTA`
